@@ -117,6 +117,15 @@ CLAIMED['C16'] = dict(
     technique='function contracts and nested loop contracts with a ghost neighbour (CBMC DFCC) on extracted real bodies; bounded native stand-in for Otsu',
     design='4/C16')
 
+CLAIMED['C18'] = dict(
+    text='hsv and hsl only. Proof over the real converter bodies for ALL float inputs in [0,1]: every result channel is assigned on every path and lies '
+         'in its range, greys ignore hue, hsv hue 1 == hue 0 (loop-free harnesses over symbolic floats = complete). Exact round trip '
+         'rgb8 -> hsv/hsl -> rgb8 and the intermediate ranges are decided by running the real code on ALL 2^24 rgb8 pixels (complete enumeration).',
+    note=TRUST + 'xyz, lab, ycbcr, cmyka, gray_alpha and the luminance converter are not covered (powf/cbrt have no usable model). hsl hue periodicity and hsl->rgb range '
+         'are proved in the thorough tier only. CBMC float model = IEEE-754 round-to-nearest.',
+    technique='lemma harnesses with the contract clauses over symbolic floats on extracted real bodies (CBMC SAT / cvc5); complete native enumeration of the rgb8 domain',
+    design='4/C18')
+
 NOT_APPLICABLE = {
     'C12': 'relates two whole template pipelines through a file/stream and external C libraries; no function contract within reach of a C verifier states what read_image returns after write_view (DESIGN 5)',
     'C13': 'equality of results of different compositions of reader classes/devices/policies over the same bytes is a relational property over I/O histories, not a pre/postcondition of an extractable function (DESIGN 5)',
